@@ -430,7 +430,9 @@ class QuantityMachine(Machine):
                                [["", "m", 1, 1], ["", "s", -1, 1]]])
             return {"op": "custom_scope", "sym": rng.choice(["span", "tick", "blob"]),
                     "mag": rng.choice([2.0, 5.0, 0.25, 1e3]), "base": base,
-                    "x": rng.choice([1.0, 3.0, -2.5, 40.0]), "prefix": rng.random() < 0.5}
+                    "x": rng.choice([1.0, 3.0, -2.5, 40.0]), "prefix": rng.random() < 0.5,
+                    # another scope opened and closed (or failing to open) inside this one
+                    "inner": rng.choice([None, None, "ok", "fails"])}
         if len(self.pool) < 1 or (len(self.pool) < cfg["pool"] and rng.random() < 0.15):
             terms = self._rand_terms(rng) if rng.random() > 0.08 else []
             kind = "array" if cfg["arrays"] and rng.random() < 0.4 else "float"
@@ -942,6 +944,18 @@ class QuantityMachine(Machine):
                 q.to(btext)
                 q.to(sym)
                 checks.append((q.value(), x, f"{sym}->{btext}->{sym}"))
+                if op.get("inner"):
+                    inner = {"zork": {"magnitude": 7.0, "dimensions": [0, 0, 1, 0, 0, 0, 0, 0]}}
+                    if op["inner"] == "fails":
+                        inner["m"] = {"magnitude": 1.0, "dimensions": [1, 0, 0, 0, 0, 0, 0, 0]}
+                    try:
+                        with UnitEnvironment(inner):
+                            Quantity(1, "zork").value("s")
+                    except Exception:
+                        pass
+                    # the enclosing scope's unit is still there and still means the same
+                    checks.append((Quantity(x, sym).value(btext), x * mag,
+                                   f"{sym}->{btext} after an inner scope ({op['inner']})"))
                 try:
                     other = "s" if btext != "s" else "m"
                     Quantity(x, sym).value(other)
